@@ -1,6 +1,7 @@
 import TnVerif.Props.C04
 import Mathlib.Algebra.BigOperators.Ring.Finset
 import Mathlib.Algebra.BigOperators.Intervals
+import Mathlib.Tactic.IntervalCases
 /-!
 # C05 — fixed-rank decompositions: what `truncated_svd` returns, given the SVD kernel's answer
 
@@ -67,8 +68,122 @@ theorem exact_rank (S2 : List K) (r : Nat) (h : ∀ i, r ≤ i → S2.getD i 0 =
   have := (C04.leastRank_minimal S2 0 (le_refl _)).2 r (by omega)
   exact this (by rw [tail_zero_of_low_rank S2 r h])
 
+/-- the discarded tail as a finite sum: `tailSum S r = Σ_{r ≤ l < |S|} S_l` -/
+theorem tailSum_eq_sum (S : List K) : ∀ r, tailSum S r = ∑ l ∈ Ico r S.length, S.getD l 0 := by
+  induction S with
+  | nil => intro r; cases r <;> simp [tailSum]
+  | cons x xs ih =>
+    intro r
+    cases r with
+    | zero =>
+      rw [tailSum, ih 0]
+      simp only [List.length_cons, Nat.Ico_zero_eq_range]
+      rw [Finset.sum_range_succ']
+      simp [add_comm]
+    | succ r =>
+      rw [tailSum, ih r, List.length_cons, ← Finset.sum_Ico_add' _ r xs.length 1]
+      apply Finset.sum_congr rfl; intro l _; simp
+
+/-- full kernel contract: additionally the rows of `Vh` are orthonormal -/
+structure SVDok2 (m n cols : Nat) (M : Nat → Nat → K) (U : Nat → Nat → K) (S : Nat → K) (Vh : Nat → Nat → K) : Prop
+    extends SVDok m n cols M U S Vh where
+  orthoV : ∀ k l, k < n → l < n → (∑ j ∈ range cols, Vh k j * Vh l j) = if k = l then 1 else 0
+
+/-- Frobenius norm under two orthonormal families: `‖U·diag(D)·Vh‖² = Σ D_l²` -/
+theorem frob_orth (m n cols : Nat) (U Vh : Nat → Nat → K) (D : Nat → K)
+    (hU : ∀ k l, k < n → l < n → (∑ i ∈ range m, U i k * U i l) = if k = l then 1 else 0)
+    (hV : ∀ k l, k < n → l < n → (∑ j ∈ range cols, Vh k j * Vh l j) = if k = l then 1 else 0) :
+    (∑ i ∈ range m, ∑ j ∈ range cols, (∑ l ∈ range n, U i l * (D l * Vh l j)) ^ 2) = ∑ l ∈ range n, D l ^ 2 := by
+  have e1 : ∀ i ∈ range m, ∀ j ∈ range cols, (∑ l ∈ range n, U i l * (D l * Vh l j)) ^ 2
+      = ∑ l ∈ range n, ∑ l' ∈ range n, (D l * D l') * ((U i l * U i l') * (Vh l j * Vh l' j)) := by
+    intro i _ j _
+    rw [sq, Finset.sum_mul_sum]
+    apply Finset.sum_congr rfl; intro l _; apply Finset.sum_congr rfl; intro l' _; ring
+  rw [Finset.sum_congr rfl (fun i hi => Finset.sum_congr rfl (e1 i hi))]
+  have e2 : (∑ i ∈ range m, ∑ j ∈ range cols, ∑ l ∈ range n, ∑ l' ∈ range n, (D l * D l') * ((U i l * U i l') * (Vh l j * Vh l' j)))
+      = ∑ l ∈ range n, ∑ l' ∈ range n, (D l * D l') * ((∑ i ∈ range m, U i l * U i l') * (∑ j ∈ range cols, Vh l j * Vh l' j)) := by
+    calc _ = ∑ i ∈ range m, ∑ l ∈ range n, ∑ j ∈ range cols, ∑ l' ∈ range n, (D l * D l') * ((U i l * U i l') * (Vh l j * Vh l' j)) := by
+            apply Finset.sum_congr rfl; intro i _; rw [Finset.sum_comm]
+      _ = ∑ l ∈ range n, ∑ i ∈ range m, ∑ j ∈ range cols, ∑ l' ∈ range n, (D l * D l') * ((U i l * U i l') * (Vh l j * Vh l' j)) := by
+            rw [Finset.sum_comm]
+      _ = ∑ l ∈ range n, ∑ i ∈ range m, ∑ l' ∈ range n, ∑ j ∈ range cols, (D l * D l') * ((U i l * U i l') * (Vh l j * Vh l' j)) := by
+            apply Finset.sum_congr rfl; intro l _; apply Finset.sum_congr rfl; intro i _; rw [Finset.sum_comm]
+      _ = ∑ l ∈ range n, ∑ l' ∈ range n, ∑ i ∈ range m, ∑ j ∈ range cols, (D l * D l') * ((U i l * U i l') * (Vh l j * Vh l' j)) := by
+            apply Finset.sum_congr rfl; intro l _; rw [Finset.sum_comm]
+      _ = _ := by
+            apply Finset.sum_congr rfl; intro l _; apply Finset.sum_congr rfl; intro l' _
+            rw [Finset.sum_mul_sum, Finset.mul_sum]
+            apply Finset.sum_congr rfl; intro i _; rw [Finset.mul_sum]
+  rw [e2]
+  apply Finset.sum_congr rfl; intro l hl
+  rw [Finset.sum_eq_single l]
+  · rw [hU l l (Finset.mem_range.mp hl) (Finset.mem_range.mp hl), hV l l (Finset.mem_range.mp hl) (Finset.mem_range.mp hl)]; simp [sq]
+  · intro l' hl' hne
+    rw [hU l l' (Finset.mem_range.mp hl) (Finset.mem_range.mp hl')]; simp [Ne.symm hne]
+  · intro h; exact absurd hl h
+
+/-- **the error of the rank-`r` truncation is exactly the discarded tail**:
+    `‖M − U_r diag(S_r) Vh_r‖²_F = Σ_{r ≤ l < n} S_l²` (given the full kernel contract) -/
+theorem truncation_error (m n cols : Nat) (M U : Nat → Nat → K) (S : Nat → K) (Vh : Nat → Nat → K)
+    (h : SVDok2 m n cols M U S Vh) (r : Nat) (hr : r ≤ n) :
+    (∑ i ∈ range m, ∑ j ∈ range cols, (M i j - ∑ l ∈ range r, U i l * (S l * Vh l j)) ^ 2) = ∑ l ∈ Ico r n, S l ^ 2 := by
+  have e : ∀ i ∈ range m, ∀ j ∈ range cols, (M i j - ∑ l ∈ range r, U i l * (S l * Vh l j))
+      = ∑ l ∈ range n, U i l * ((if l < r then 0 else S l) * Vh l j) := by
+    intro i hi j hj
+    rw [h.factor i j (Finset.mem_range.mp hi) (Finset.mem_range.mp hj)]
+    rw [← Finset.sum_range_add_sum_Ico _ hr, ← Finset.sum_range_add_sum_Ico (fun l => U i l * ((if l < r then 0 else S l) * Vh l j)) hr]
+    have z : (∑ l ∈ range r, U i l * ((if l < r then 0 else S l) * Vh l j)) = 0 := by
+      apply Finset.sum_eq_zero; intro l hl; simp [Finset.mem_range.mp hl]
+    have k : (∑ l ∈ Ico r n, U i l * ((if l < r then 0 else S l) * Vh l j)) = ∑ l ∈ Ico r n, U i l * (S l * Vh l j) := by
+      apply Finset.sum_congr rfl; intro l hl
+      have : ¬ l < r := by have := (Finset.mem_Ico.mp hl).1; omega
+      simp [this]
+    rw [z, k]; ring
+  rw [Finset.sum_congr rfl (fun i hi => Finset.sum_congr rfl (fun j hj => by rw [e i hi j hj]))]
+  rw [frob_orth m n cols U Vh _ h.ortho h.orthoV, ← Finset.sum_range_add_sum_Ico _ hr]
+  have z : (∑ l ∈ range r, (if l < r then 0 else S l) ^ 2) = 0 := by
+    apply Finset.sum_eq_zero; intro l hl; simp [Finset.mem_range.mp hl]
+  rw [z, zero_add]
+  apply Finset.sum_congr rfl; intro l hl
+  have : ¬ l < r := by have := (Finset.mem_Ico.mp hl).1; omega
+  simp [this]
+
+/-- **`truncated_svd` stays within its budget**: with the factors the routine returns (`left = U_r`, `right = U_rᵀM`) and
+    the rank it selects when `rmax` does not bind, `‖M − left·right‖² ≤ δ²` — and one rank less would exceed it -/
+theorem truncated_svd_within_budget (m n cols : Nat) (M U : Nat → Nat → K) (S : Nat → K) (Vh : Nat → Nat → K)
+    (h : SVDok2 m n cols M U S Vh) (d2 : K) (hd : 0 ≤ d2) :
+    let S2 := (List.range n).map (fun l => S l ^ 2)
+    let r := leastRank S2 d2 S2.length 0
+    (∑ i ∈ range m, ∑ j ∈ range cols, (M i j - ∑ l ∈ range r, U i l * (∑ i' ∈ range m, U i' l * M i' j)) ^ 2) ≤ d2 := by
+  intro S2 r
+  have hlen : S2.length = n := by simp [S2]
+  have hr : r ≤ n := by
+    have := (C04.leastRank_spec S2 d2 S2.length 0).2.1
+    omega
+  have e : ∀ i ∈ range m, ∀ j ∈ range cols, (M i j - ∑ l ∈ range r, U i l * (∑ i' ∈ range m, U i' l * M i' j))
+      = (M i j - ∑ l ∈ range r, U i l * (S l * Vh l j)) := by
+    intro i _ j hj
+    congr 1
+    apply Finset.sum_congr rfl; intro l hl
+    rw [truncation_right_factor m n cols M U S Vh h.toSVDok l j (by have := Finset.mem_range.mp hl; omega) (Finset.mem_range.mp hj)]
+  rw [Finset.sum_congr rfl (fun i hi => Finset.sum_congr rfl (fun j hj => by rw [e i hi j hj]))]
+  rw [truncation_error m n cols M U S Vh h r hr]
+  have t : tailSum S2 r ≤ d2 := (C04.leastRank_minimal S2 d2 hd).1
+  rw [tailSum_eq_sum, hlen] at t
+  refine le_of_eq_of_le ?_ t
+  apply Finset.sum_congr rfl; intro l hl
+  have hl' := (Finset.mem_Ico.mp hl).2
+  simp [S2, List.getD_eq_getElem?_getD, hl']
+
+/-- non-vacuity: `diag(3,1)` with its trivial SVD meets the full kernel contract -/
+example : SVDok2 2 2 2 (fun i j => if i = j then (if i = 0 then (3 : K) else 1) else 0) (fun i j => if i = j then 1 else 0)
+    (fun l => if l = 0 then 3 else 1) (fun i j => if i = j then 1 else 0) := by
+  refine { factor := ?_, ortho := ?_, orthoV := ?_ }
+  · intro i j hi hj; interval_cases i <;> interval_cases j <;> simp [Finset.sum_range_succ]
+  · intro k l hk hl; interval_cases k <;> interval_cases l <;> simp [Finset.sum_range_succ]
+  · intro k l hk hl; interval_cases k <;> interval_cases l <;> simp [Finset.sum_range_succ]
+
 -- NOT YET PROVED (full statement), and assumed results absent from Mathlib:
---   ‖M − left·right‖² = Σ_{i≥r} S_i²  (needs VhVhᵀ = I and the Frobenius norm of an orthogonal transform);
 --   two-sided bound of the TT/Tucker fixed-rank error by the tails of the ORIGINAL unfoldings
 --   (`_assuming_` Eckart–Young and the monotonicity of singular values under orthogonal projection);
 --   CP-ALS monotonicity.
